@@ -67,6 +67,23 @@ def run(chk, repo, tier):
             any(n in construct for n in ("Aggregate", "_CoreAggregateVerify", "_AggregatePKs", "pairing", "miller_loop"))
         if relevant:
             chk.ob("C03.R6", construct, f"purity [{rule}] {key}", ok, detail, where)
+    # 'an aggregate that is altered is rejected' rests on every non-canonical encoding being refused by the decoders:
+    # the decision tables of decompress_G1/G2 (C11.R1) re-stated
+    chk.rule("C03.R7", "every altered encoding of the aggregate (or of a key) is refused or decodes to a different point: the decoder "
+                       "decision tables of C11.R1 re-stated", 60)
+    from . import C11 as _dep_C11
+    _sub11 = SubCheck()
+    _err11 = None
+    try:
+        _dep_C11.run(_sub11, repo, tier)
+    except AnalysisError as _e:
+        _err11 = _e
+    _known = {(f["rule"], f["construct"], f["key"]) for f in chk.known.get("findings", []) if f["property"] == "C11"}
+    for rule, construct, key, ok, detail, where in _sub11.obs:
+        if rule == "C11.R1" and "decompress_" in construct and (rule, construct, key) not in _known:
+            chk.ob("C03.R7", construct, f"[{rule}] {key}", ok, detail, where)
+    if _err11 is not None and all(o[3] for o in _sub11.obs):
+        raise _err11
     M = Model(repo, "P")
     it0 = Interp(M.world)
     G1c = hp(it0.eval_global(repo.module(CS), "G1"))
